@@ -212,7 +212,10 @@ class BodyView:
             if t['t'] == 'switch':
                 atom = self.switch_atom(bb)
                 rec = relevant is None or relevant(atom)
+                known = self._const_on_path(blocks, t['discr'])
                 for tgt, label in self.switch_edges(bb):
+                    if known is not None and not self._edge_takes(label, known):
+                        continue          # `_3 = const ..; goto; switchInt(_3)` (matches!, &&, ||): only one edge is feasible on this path
                     ch = choices + ((atom, frozenset(self.label_values(bb, label)), bb),) if rec else choices
                     if tgt in blocks:
                         results.setdefault((ch, tgt, 'loop', msig(blocks)), blocks)
@@ -236,6 +239,31 @@ class BodyView:
                 raise RuntimeError('too many distinct paths in %s' % b.short)
         for (choices, end, kind, _m), blocks in results.items():
             yield choices, blocks, end, kind
+
+    def _const_on_path(self, blocks, discr):
+        """integer value of a switch operand whose last whole assignment along this path is a constant (None if unknown)"""
+        if discr.get('o') not in ('copy', 'move') or discr['p']['proj']:
+            return None
+        l = discr['p']['l']
+        if l <= self.b.arg_count:
+            return None
+        la = self.last_assignment(blocks, l)
+        if la is None or la[1] is None:
+            return None
+        rv = la[2]
+        if rv['r'] == 'use' and rv['op']['o'] == 'const' and isinstance(rv['op'].get('int'), int):
+            # no partial write (projection / borrow) may intervene: only trust compiler temporaries that are never borrowed
+            for blk in self.b.blocks:
+                for st in blk['stmts']:
+                    if st['s'] == 'assign' and st['rv']['r'] in ('ref', 'rawptr') and st['rv'].get('p', {}).get('l') == l:
+                        return None
+            return rv['op']['int']
+        return None
+
+    @staticmethod
+    def _edge_takes(label, value):
+        kind, vals = label
+        return (value in vals) if kind == 'in' else (value not in vals)
 
     def last_assignment(self, blocks, local):
         """the last whole assignment to `local` along the block sequence: (bb, si|None, rvalue|term)"""
